@@ -131,6 +131,22 @@ def judge(t, o, e):
     return "ok", 0
 
 
+def classical_family():
+    """purely classical circuits with a genuinely stochastic gate (no qubit, no mixed box): prepared bits, noise,
+    copies, negations - what measure() and get_counts() return must be the distribution itself"""
+    from harness.checks.c13 import _mg
+    B = lambda *bits: {"g": _mg("Bits", bits=list(bits)), "off": 0}
+    N, C, X = _mg("Noisy"), _mg("Copy"), _mg("NOT")
+    out = []
+    for x in (0, 1):
+        out.append({"ty": [], "layers": [B(x), {"g": N, "off": 0}]})
+        out.append({"ty": [], "layers": [B(x), {"g": N, "off": 0}, {"g": C, "off": 0}]})
+        out.append({"ty": [], "layers": [B(x), {"g": N, "off": 0}, {"g": N, "off": 0}]})
+        out.append({"ty": [], "layers": [B(x, 1 - x), {"g": N, "off": 0}, {"g": X, "off": 1}, {"g": N, "off": 1}]})
+        out.append({"ty": [], "layers": [B(x), {"g": C, "off": 0}, {"g": N, "off": 1}, {"g": _mg("Match"), "off": 0}]})
+    return out
+
+
 def run(tier, seed, t0):
     c = CONST[tier]
     rnd = core.rng(seed, "C12")
@@ -146,6 +162,7 @@ def run(tier, seed, t0):
         singles = [x for x in circuits if len(x["layers"]) <= 1]
         rest = [x for x in circuits if len(x["layers"]) > 1]
         sample = singles + (rest if len(rest) <= c["replay"] else rnd.sample(rest, c["replay"]))
+        sample = sample + classical_family()
         rows = [{"mc": x} for x in sample]
         import multiprocessing as mp
         with mp.get_context("fork").Pool(16) as pool:
